@@ -17,7 +17,7 @@ RULE = ('Evaluation = one triple of executions (A, A\\u2032, A\\u2033) of the re
 ASSUMPTIONS = ['frames whose rows are all type>=2 hits above the limit (chunk emptied by the crop: known finding D8, decided by C08) are skipped']
 REQUIRED = ['limit_eq_hit_height', 'type_ge2_above', 'vv_above', 'n_above_eq_MAX_HITS_OKTA0', 'n_above_eq_MAX_HITS_OKTA0_plus1',
             'msa_none', 'buffer_0', 'msa_0', 'flag_true', 'flag_false_with_hits_above', 'nonunique_index',
-            'type1_above_type2_below', 'noninteger_msa_and_buffer']
+            'type1_above_type2_below', 'noninteger_msa_and_buffer', 'checked_concat_frames', 'measurement_of_second_hits_only_above']
 SIZES = {'quick': 420, 'thorough': 9000}
 
 
@@ -82,6 +82,22 @@ def build(desc):
             call['MAX_HITS_OKTA0'] = n_above
         elif i % 5 == 2 and 1 <= n_above <= 11:
             call['MAX_HITS_OKTA0'] = n_above - 1
+    if i % 7 == 5:
+        sc['rows'] = sorted(sc['rows'], key=lambda r: r[0])
+        sc['assemble'] = 'checked_concat'
+    if i % 9 == 4 and limit is not None:
+        # "missing lower types" (warn-only): measurements above the limit that consist of second hits only
+        multi = {}
+        for r in sc['rows']:
+            if r[2] == r[2] and r[2] > limit:
+                multi.setdefault((r[0], r[1]), []).append(r)
+        drop = set()
+        for key, rs in multi.items():
+            if len(rs) >= 2 and all(x[2] > limit for x in [y for y in sc['rows'] if (y[0], y[1]) == key and y[2] == y[2]]):
+                drop.add(id(min(rs, key=lambda x: x[3])))
+        if drop:
+            sc['rows'] = [r for r in sc['rows'] if id(r) not in drop]
+            sc['missing_lower_types'] = True
     if i % 7 == 3:
         cnt = {}
         idx = []
@@ -187,6 +203,10 @@ def check(desc):
             tags.add('type1_above_type2_below')
         if eff['MSA'] != int(eff['MSA']) and eff['MSA_HIT_BUFFER'] != int(eff['MSA_HIT_BUFFER']):
             tags.add('noninteger_msa_and_buffer')
+        if sc.get('assemble') == 'checked_concat' and n_above:
+            tags.add('checked_concat_frames')
+        if sc.get('missing_lower_types'):
+            tags.add('measurement_of_second_hits_only_above')
         if sc.get('index') is not None and n_above:
             tags.add('nonunique_index')
         if n_above:
